@@ -10,8 +10,8 @@ func init() {
 	register(&propInfo{
 		ID:          "C08",
 		Run:         runC08,
-		MinObl:      8,
-		Explanation: "Decided: R1 in NewRevocationRequest every RevocationHandler.RevokeToken call is reached only with the AuthenticateClient error known nil, receives the authenticated client, and an authentication failure is returned unchanged; R2 in the module's RevokeToken implementation every Revoke{Access,Refresh}Token sink requires client-id(looked-up request)==client-id(authenticated client), the lookup error of that request nil, and the mismatch exit derives from ErrUnauthorizedClient; R3 the path that revokes calls both RevokeRefreshToken and RevokeAccessToken with GetID of the looked-up request; R4 the function gives up (no revoke) only after both the refresh-token and the access-token lookup ran, each keyed by the matching *Signature of the presented token; R5 the error mapper returns nil only if each revoke/lookup error is nil, ErrNotFound or ErrInactiveToken and ErrTemporarilyUnavailable otherwise; WriteRevocationResponse writes a non-200 status only under errors.Is(err, ErrInvalidRequest|ErrInvalidClient). NOT decided: the effect on sibling tokens in a live store beyond R3 + the store contract (C01.R5/C04.R4).",
+		MinObl:      14,
+		Explanation: "Decided: R1 in NewRevocationRequest every RevocationHandler.RevokeToken call is reached only with the AuthenticateClient error known nil, receives the authenticated client, and an authentication failure is returned unchanged; R2 in the module's RevokeToken implementation every Revoke{Access,Refresh}Token sink requires client-id(looked-up request)==client-id(authenticated client), the lookup error of that request nil, and the mismatch exit derives from ErrUnauthorizedClient; R3 the path that revokes calls both RevokeRefreshToken and RevokeAccessToken with GetID of the looked-up request; R4 the function gives up (no revoke) only after both the refresh-token and the access-token lookup ran, each keyed by the matching *Signature of the presented token; R5 the error mapper returns nil only if each revoke/lookup error is nil, ErrNotFound or ErrInactiveToken and ErrTemporarilyUnavailable otherwise; WriteRevocationResponse writes a non-200 status only under errors.Is(err, ErrInvalidRequest|ErrInvalidClient). R1 also: a success exit of the endpoint is reached only through the exhaustion of the handler loop (every configured handler consulted); R6 reference-store contract: RevokeAccessToken / RevokeRefreshToken resolve the request id through the matching index map and modify the token table under exactly the signature found there, and Delete{Access,Refresh}TokenSession remove the session keyed by their signature parameter and touch the shared request-id index only for an entry known to point at that signature. NOT decided: other stores; histories beyond that contract.",
 	})
 }
 
